@@ -351,64 +351,7 @@ func runC09(w *World, r *Report) {
 	prunedAreCheckpointed(w, r, "pruned-are-checkpointed")
 
 	// 4. both parents exist before admission
-	r.rule("parents-exist", "addLeafMemorized: the insertion is reachable only after the loop over {Left,Right}ParentHash completed, and every iteration crosses the found-edge of GetVertex for its element", 3)
-	if f := w.fx(r, "accountant", "AccountingBook", "addLeafMemorized"); f != nil {
-		fn := f.fn
-		adds := deepCalls(fn, byName(nAddVertexByID), deepDepth)
-		if len(adds) == 1 {
-			_, aa := callArgs(adds[0].c)
-			v := adds[0].path(aa[1])
-			found := false
-			for _, gd := range deepCalls(fn, byName(nGetVertex), deepDepth) {
-				g := gd.c
-				gfn := g.Parent()
-				_, ga := callArgs(g)
-				ps := hashElemOriginsR(ga[0], gd.res())
-				if strings.Join(ps, ",") != v+".LeftParentHash,"+v+".RightParentHash" {
-					continue
-				}
-				found = true
-				h := enclosingRangeHeader(g.Block())
-				if h == nil {
-					r.bad("parents-exist", "addLeafMemorized/loop", lineOf(w, g), "parent lookup must be inside the loop over both parent hashes", "no enclosing range loop")
-					continue
-				}
-				r.ok("parents-exist", "addLeafMemorized/elements", lineOf(w, g), "the ranged literal is exactly {leaf.LeftParentHash, leaf.RightParentHash}")
-				// header: If cond goto body else done
-				var bodyE, doneE *Edge
-				for i := range h.Succs {
-					e := Edge{h, i}
-					if i == 0 {
-						bodyE = &e
-					} else {
-						doneE = &e
-					}
-				}
-				if bodyE == nil || doneE == nil {
-					r.undecided("parents-exist", "addLeafMemorized/loop-shape", lineOf(w, g), "range loop header must branch to body/done", "unexpected shape")
-					continue
-				}
-				okIter := !reachable([]*ssa.BasicBlock{bodyE.To()}, edgeSet(passErrNil(g), []Edge{*doneE}))[h]
-				_ = gfn
-				r.check(okIter && len(passErrNil(g)) > 0, "parents-exist", "addLeafMemorized/every-iteration", lineOf(w, g), "no way back to the loop header (next parent) without the found-edge of GetVertex", "an iteration can continue without having found its parent")
-				// with the loop's normal exit cut, the insertion must be unreachable (the loop may sit in a helper: its
-				// successful return is then behind that exit, and the walk is pruned by the return it came back through)
-				reached := false
-				dw := newDeepWalk(func(in ssa.Instruction, _ *frame) bool {
-					if in == adds[0].c.(ssa.Instruction) {
-						reached = true
-					}
-					return reached
-				})
-				dw.cutFixed = edgeSet([]Edge{*doneE})
-				dw.run(topFrame(fn), fn.Blocks[0], 0)
-				r.check(!reached, "parents-exist", "addLeafMemorized/insert-after-loop", lineOf(w, adds[0].c), "insertion reachable only through the loop's normal exit (all parents processed)", "insertion reachable by leaving the loop early or bypassing it")
-			}
-			if !found {
-				r.bad("parents-exist", "addLeafMemorized/lookup", w.Pos(fn.Pos()), "a GetVertex lookup over both declared parent hashes must exist", "not found")
-			}
-		}
-	}
+	parentsExist(w, r, "parents-exist")
 
 	// 5. weight and signing
 	r.rule("weight-and-seal", "CreateLeaf seals calcNewWeight(l.Weight, r.Weight) of the two referenced parents; NewVertex returns only the candidate it signed; sign stores Hash/Signature from signer.Sign(initData())", 4)
@@ -979,6 +922,15 @@ func runC13(w *World, r *Report) {
 				}
 			})
 			r.check(inc, "buffer-bounds", "insert/increment-first", lineOf(w, app), "the retry counter is incremented before the vertex is parked again", "no dominating increment")
+			// parked means parked: insert reports success only when the vertex went into the list (the caller answers
+			// "parent unknown, will retry" on the strength of it; a success that parks nothing loses the vertex for good)
+			silent := 0
+			for _, ret := range returnsOf(bi.fn) {
+				if successReturn(ret) && !app.Block().Dominates(ret.Block()) {
+					silent++
+				}
+			}
+			r.check(silent == 0, "buffer-bounds", "insert/success-means-parked", lineOf(w, app), "every successful return of insert has appended the vertex", fmt.Sprintf("%d successful returns are reachable without the append", silent))
 		}
 	}
 
@@ -1408,6 +1360,34 @@ func runC14(w *World, r *Report) {
 
 	reserveBeforeInsert(w, r, "duplicate-transaction-refused", "LoadDag", 1)
 	linkSkipsArePerVertex(w, r, "link-skips-are-per-vertex")
+
+	// what is streamed is one state of the ledger: the lock taken before the tips are listed is kept to the end
+	r.rule("stream-is-one-snapshot", "the goroutine that serves StreamDAG releases the ledger lock only by its deferred unlock: between listing the tips and the last vertex sent the ledger cannot change", 1)
+	if sd := w.fx(r, "accountant", "AccountingBook", "StreamDAG"); sd != nil {
+		nLock, early := 0, ""
+		for _, g := range withHelpers(sd.fn, 2) {
+			for _, g2 := range WithAnon(g) {
+				instrsOf(g2, func(in ssa.Instruction) {
+					c, ok := in.(ssa.CallInstruction)
+					if !ok {
+						return
+					}
+					op, _, id, isLock := lockOp(c)
+					if !isLock || !strings.HasSuffix(id, "AccountingBook.mux") {
+						return
+					}
+					if op == "lock" {
+						nLock++
+						return
+					}
+					if _, deferred := c.(*ssa.Defer); !deferred && !runsOnlyDeferred(g2) {
+						early += " " + shortFn(g2) + " releases the ledger lock at " + lineOf(w, c) + ";"
+					}
+				})
+			}
+		}
+		r.check(nLock > 0 && early == "", "stream-is-one-snapshot", "StreamDAG/lock-kept", w.Pos(sd.fn.Pos()), "the ledger lock is held from the listing of the tips to the end of the stream", fmt.Sprintf("locks taken: %d;%s", nLock, early))
+	}
 
 	// transport: a stream that broke is not mistaken for one that ended
 	r.rule("transport-reports-failure", "serving handler: the error of stream.Send can reach the handler's result; loading client: the errors of stream.Recv and of the vertex mapping can reach updateDag's result (a broken stream is not reported as a clean end)", 2)
@@ -2028,4 +2008,97 @@ func capturedCell(fv *ssa.FreeVar) *ssa.Alloc {
 		}
 	})
 	return out
+}
+
+
+// parentsExist: gossip admission inserts a vertex only after a loop over both declared parent hashes in which every
+// iteration crossed the found-edge of the graph lookup for its element (shared by C09 — every vertex has an edge from each
+// declared parent — and C01: a vertex admitted without its parents has no edges, is a root, and validateLeaf exempts roots
+// from the funds check).
+func parentsExist(w *World, r *Report, rule string) {
+	r.rule(rule, "addLeafMemorized: the insertion is reachable only after the loop over {Left,Right}ParentHash completed, and every iteration crosses the found-edge of GetVertex for its element", 3)
+	if f := w.fx(r, "accountant", "AccountingBook", "addLeafMemorized"); f != nil {
+		fn := f.fn
+		adds := deepCalls(fn, byName(nAddVertexByID), deepDepth)
+		if len(adds) == 1 {
+			_, aa := callArgs(adds[0].c)
+			v := adds[0].path(aa[1])
+			found := false
+			for _, gd := range deepCalls(fn, byName(nGetVertex), deepDepth) {
+				g := gd.c
+				gfn := g.Parent()
+				_, ga := callArgs(g)
+				ps := hashElemOriginsR(ga[0], gd.res())
+				if strings.Join(ps, ",") != v+".LeftParentHash,"+v+".RightParentHash" {
+					continue
+				}
+				found = true
+				h := enclosingRangeHeader(g.Block())
+				if h == nil {
+					r.bad(rule, "addLeafMemorized/loop", lineOf(w, g), "parent lookup must be inside the loop over both parent hashes", "no enclosing range loop")
+					continue
+				}
+				r.ok(rule, "addLeafMemorized/elements", lineOf(w, g), "the ranged literal is exactly {leaf.LeftParentHash, leaf.RightParentHash}")
+				// header: If cond goto body else done
+				var bodyE, doneE *Edge
+				for i := range h.Succs {
+					e := Edge{h, i}
+					if i == 0 {
+						bodyE = &e
+					} else {
+						doneE = &e
+					}
+				}
+				if bodyE == nil || doneE == nil {
+					r.undecided(rule, "addLeafMemorized/loop-shape", lineOf(w, g), "range loop header must branch to body/done", "unexpected shape")
+					continue
+				}
+				okIter := !reachable([]*ssa.BasicBlock{bodyE.To()}, edgeSet(passErrNil(g), []Edge{*doneE}))[h]
+				_ = gfn
+				r.check(okIter && len(passErrNil(g)) > 0, rule, "addLeafMemorized/every-iteration", lineOf(w, g), "no way back to the loop header (next parent) without the found-edge of GetVertex", "an iteration can continue without having found its parent")
+				// with the loop's normal exit cut, the insertion must be unreachable (the loop may sit in a helper: its
+				// successful return is then behind that exit, and the walk is pruned by the return it came back through)
+				reached := false
+				dw := newDeepWalk(func(in ssa.Instruction, _ *frame) bool {
+					if in == adds[0].c.(ssa.Instruction) {
+						reached = true
+					}
+					return reached
+				})
+				dw.cutFixed = edgeSet([]Edge{*doneE})
+				dw.run(topFrame(fn), fn.Blocks[0], 0)
+				r.check(!reached, rule, "addLeafMemorized/insert-after-loop", lineOf(w, adds[0].c), "insertion reachable only through the loop's normal exit (all parents processed)", "insertion reachable by leaving the loop early or bypassing it")
+			}
+			if !found {
+				r.bad(rule, "addLeafMemorized/lookup", w.Pos(fn.Pos()), "a GetVertex lookup over both declared parent hashes must exist", "not found")
+			}
+		}
+	}
+}
+
+
+// runsOnlyDeferred: fn is a function literal whose every use is the operand of a defer (`defer func() { … }()`).
+func runsOnlyDeferred(fn *ssa.Function) bool {
+	par := fn.Parent()
+	if par == nil {
+		return false
+	}
+	n, all := 0, true
+	instrsOf(par, func(in ssa.Instruction) {
+		for _, op := range in.Operands(nil) {
+			if *op == nil {
+				continue
+			}
+			if closureOf(*op) == fn || *op == ssa.Value(fn) {
+				if _, isMC := in.(*ssa.MakeClosure); isMC {
+					continue // creation; the uses of the closure value are what counts
+				}
+				n++
+				if _, isDefer := in.(*ssa.Defer); !isDefer {
+					all = false
+				}
+			}
+		}
+	})
+	return n > 0 && all
 }
